@@ -5,7 +5,8 @@ From GLMV Require Import Expr SemR Cat SpecLinAlg SpecProj.
 Local Open Scope Z_scope.
 
 Definition vecv (a L : Z) : list expr := map (fun i => V F32 a i) (zseq L).
-Fixpoint sum_e (l : list expr) : expr := match l with [] => ec 0 | [x] => x | x :: r => eadd x (sum_e r) end.
+(* left-associated sum  ((x0 + x1) + x2) + ...  (the association GLM uses for vec2/vec3 dot products) *)
+Definition sum_e (l : list expr) : expr := match l with [] => ec 0 | x :: r => fold_left eadd r x end.
 Definition dot_e (u v : list expr) : expr := sum_e (map (fun p => emul (fst p) (snd p)) (combine u v)).
 Definition sub_v (u v : list expr) : list expr := map (fun p => esub (fst p) (snd p)) (combine u v).
 Definition scale_v (s : expr) (v : list expr) : list expr := map (fun x => emul s x) v.
